@@ -2,71 +2,105 @@ import PsModel.Lemmas.C15
 /-!
 # C15 – property theorems: `task.wait_until` returns for the first qualifying trigger and always cleans up
 
-`Legacy.run cfg q tb v0 call hist` / `New.run …` = (exit, tables afterwards) of one call with arguments `cfg`, fresh
-queue `q`, tables `tb` before, current value `v0` of the watched variable, at instant `call`, followed by the timed
-history `hist` (state changes, events, cancellation of the waiter).  `Spec.first` = the first of {check-now, first
-decisive occurrence, deadline anchored at the call}.  Only property statements live here.
+`Legacy.run fl cfg q tb v0 call hist` / `New.run fl …` = (exit, tables afterwards) of one call with arguments `cfg`,
+fresh queue `q`, tables `tb` before, current value `v0` of the watched variable, at instant `call`, followed by the
+timed history `hist` (state changes, events, cancellation of the waiter).  `Spec.first` = the first of {check-now,
+first decisive occurrence, deadline anchored at the call}.  Only property statements live here.
 
-The FULL statements ("for every argument combination the exit is `Spec.first`", "on every exit the tables are what
-they were") do NOT hold for the code as it is; each `_partial` theorem states the exact fragment that is proved and
-each `_cex` theorem is a kernel-checked witness that is replayed on the real code by the check (findings C15-F1…F6).
+`fl : Flags` chooses between the code before and after the three `fix:` commits of /repo:
+`Flags.current` (d8d17a4 stop-on-cancel, 74d9745 timeout=0, 28f0376 anchored `now`) is what the check ties to the
+working tree; `Flags.preFix` is the tree before them.  The `_flags` theorems are proved for EVERY flag value with
+the fragment depending on the flag; the unsuffixed ones are their instances at `Flags.current`; the `_regress_`
+theorems are kernel-checked witnesses that the pre-fix shapes violate what now holds (they would fail to build if
+somebody re-introduced the old shape as current and kept the full theorems).
+
+Still open (the code deviates): C15-F1 (legacy cancellation leak), C15-F4 (legacy parse-error leak), C15-F5 (new:
+`none` returned early) – `_partial` + `_cex` below.
 -/
 namespace PsModel.C15
 open Spec
 
 /-! ## first-of -/
 
-/-- **First qualifying trigger (legacy).**  For all well-formed arguments whose time trigger is not relative to `now`,
-all current values, all call instants and all time-ordered histories: the call ends exactly as specified – with the
-first decisive occurrence or the deadline (time instant / timeout after `T`), immediately on a true check-now, with
-`none` iff nothing can ever happen, and it keeps waiting otherwise. -/
-theorem C15_first_legacy_partial (cfg : Cfg) (hwf : WellFormed cfg) (hrel : NotRel cfg.time) (q : Nat) (tb : Tables)
-    (v0 call : Nat) (hist : Hist) (hm : Mono call hist) (hnt : NoTies cfg call hist) :
-    (Legacy.run cfg q tb v0 call hist).1 = first cfg v0 call hist :=
-  legacy_first cfg hwf hrel q tb v0 call hist hm hnt
+/-- **First qualifying trigger (legacy), every flag value.**  For all well-formed arguments, all current values, all
+call instants and all time-ordered histories: the call ends exactly as specified – with the first decisive
+occurrence or the deadline (time instant / timeout after `T`), immediately on a true check-now, with `none` iff
+nothing can ever happen, and it keeps waiting otherwise – provided the time trigger is anchored at the call
+(`Anchored`: always for the repaired loop; for the pre-fix loop only when it is not now-relative). -/
+theorem C15_first_legacy_flags (fl : Flags) (cfg : Cfg) (hwf : WellFormed cfg) (hanch : Anchored fl cfg.time)
+    (hpos : PosRel cfg.time) (q : Nat) (tb : Tables) (v0 call : Nat) (hist : Hist) (hm : Mono call hist)
+    (hnt : NoTies cfg call hist) :
+    (Legacy.run fl cfg q tb v0 call hist).1 = first cfg v0 call hist :=
+  legacy_first fl cfg hwf hanch hpos q tb v0 call hist hm hnt
 
-/-- **Witness (legacy), finding C15-F6.**  `time_trigger="once(now + 3s)"` with a non-qualifying event after 2 s: every
-wake-up of the loop re-anchors `now`, the call returns at 5 s instead of 3 s. -/
-theorem C15_first_cex_legacy_reanchor :
+/-- **First qualifying trigger (legacy), the code as it is now.**  Also for now-relative time triggers
+(`once(now + d)`, `d > 0`): no hypothesis about the shape of the time trigger is left. -/
+theorem C15_first_legacy (cfg : Cfg) (hwf : WellFormed cfg) (hpos : PosRel cfg.time) (q : Nat) (tb : Tables)
+    (v0 call : Nat) (hist : Hist) (hm : Mono call hist) (hnt : NoTies cfg call hist) :
+    (Legacy.run Flags.current cfg q tb v0 call hist).1 = first cfg v0 call hist :=
+  legacy_first Flags.current cfg hwf (by intro h; cases h) hpos q tb v0 call hist hm hnt
+
+/-- **Regression witness (legacy), fixed finding C15-F6 (28f0376).**  `time_trigger="once(now + 3s)"` with a
+non-qualifying event after 2 s: the pre-fix loop re-anchors `now` and returns at 5 s; the repaired loop returns at
+3 s as specified. -/
+theorem C15_first_regress_legacy_reanchor :
     let cfg : Cfg := { state := Option.none, time := .rel 3000, mqtt := Option.none, timeout := Option.none,
                        event := some { filt := some (fun d => some (decide (d = 1))), parseOK := true } }
     let tb : Tables := { stSubs := [], evSubs := [], evListeners := 0, mqSubs := [], mqListeners := 0, tasks := 0 }
     let hist : Hist := [(2001, .event 0)]
-    (Legacy.run cfg 7 tb 0 1 hist).1 = .ret 5001 (.time 5001) ∧ first cfg 0 1 hist = .ret 3001 (.time 3001) ∧
-    (New.run cfg 7 tb 0 1 hist).1 = .ret 3001 (.time 3001) := by
+    (Legacy.run Flags.preFix cfg 7 tb 0 1 hist).1 = .ret 5001 (.time 5001) ∧
+    first cfg 0 1 hist = .ret 3001 (.time 3001) ∧
+    (Legacy.run Flags.current cfg 7 tb 0 1 hist).1 = .ret 3001 (.time 3001) := by
   decide
 
-/-- **First qualifying trigger (new).**  Same statement for the new subsystem, for all well-formed arguments with a
-timeout other than 0 and no time trigger without future instant next to other conditions. -/
-theorem C15_first_new_partial (cfg : Cfg) (call : Nat) (hwf : WellFormed cfg) (htz : cfg.timeout ≠ some 0)
+/-- **First qualifying trigger (new), every flag value.**  Same statement for the new subsystem when a time trigger
+without future instant is not combined with anything else (C15-F5, open) and – only for the pre-fix shape – the
+timeout is not 0. -/
+theorem C15_first_new_flags (fl : Flags) (cfg : Cfg) (call : Nat) (hwf : WellFormed cfg)
+    (htz : fl.timeout0Absent = true → cfg.timeout ≠ some 0)
     (hdead : hasTime cfg = true →
       (timeNext cfg.time call).isSome = true ∨ (hasListen cfg = false ∧ cfg.timeout = Option.none))
     (q : Nat) (tb : Tables) (v0 : Nat) (hist : Hist) (hm : Mono call hist) :
-    (New.run cfg q tb v0 call hist).1 = first cfg v0 call hist :=
-  new_first cfg hwf htz hdead q tb v0 hist hm
+    (New.run fl cfg q tb v0 call hist).1 = first cfg v0 call hist :=
+  new_first fl cfg hwf htz hdead q tb v0 hist hm
 
-/-- **Witness (new), finding C15-F3 (#23).**  `task.wait_until(event_trigger="e", timeout=0)`: specified (and legacy)
-exit is `timeout` at once; the new subsystem never returns (and with `timeout=0` alone it raises). -/
-theorem C15_first_cex_new_timeout0 :
+/-- **First qualifying trigger (new), the code as it is now – still partial because of C15-F5.**  Every timeout,
+including 0, is honoured; the only excluded arguments are a time trigger without future instant next to other
+conditions. -/
+theorem C15_first_new_partial (cfg : Cfg) (call : Nat) (hwf : WellFormed cfg)
+    (hdead : hasTime cfg = true →
+      (timeNext cfg.time call).isSome = true ∨ (hasListen cfg = false ∧ cfg.timeout = Option.none))
+    (q : Nat) (tb : Tables) (v0 : Nat) (hist : Hist) (hm : Mono call hist) :
+    (New.run Flags.current cfg q tb v0 call hist).1 = first cfg v0 call hist :=
+  new_first Flags.current cfg hwf (by intro h; cases h) hdead q tb v0 hist hm
+
+/-- **Regression witness (new), fixed finding C15-F3 (#23, 74d9745).**  `task.wait_until(event_trigger="e",
+timeout=0)`: the pre-fix shape never returns (and `timeout=0` alone raises); the repaired shape returns `timeout` at
+once, like legacy and the specification. -/
+theorem C15_first_regress_new_timeout0 :
     let cfg : Cfg := { state := Option.none, time := .none, mqtt := Option.none, timeout := some 0,
                        event := some { filt := Option.none, parseOK := true } }
     let only : Cfg := { state := Option.none, time := .none, mqtt := Option.none, timeout := some 0, event := Option.none }
     let tb : Tables := { stSubs := [], evSubs := [], evListeners := 0, mqSubs := [], mqListeners := 0, tasks := 0 }
-    first cfg 0 1 [] = .ret 1 .timeout ∧ (Legacy.run cfg 7 tb 0 1 []).1 = .ret 1 .timeout ∧
-    (New.run cfg 7 tb 0 1 []).1 = .waiting ∧
-    (New.run cfg 7 tb 0 1 [(500, .event 3)]).1 = .ret 500 (.event 3) ∧
-    (Legacy.run only 7 tb 0 1 []).1 = .ret 1 .timeout ∧ (New.run only 7 tb 0 1 []).1 = .exc 1 .runtime := by
+    first cfg 0 1 [] = .ret 1 .timeout ∧ first only 0 1 [] = .ret 1 .timeout ∧
+    (New.run Flags.preFix cfg 7 tb 0 1 []).1 = .waiting ∧
+    (New.run Flags.preFix cfg 7 tb 0 1 [(500, .event 3)]).1 = .ret 500 (.event 3) ∧
+    (New.run Flags.preFix only 7 tb 0 1 []).1 = .exc 1 .runtime ∧
+    New.run Flags.current cfg 7 tb 0 1 [(500, .event 3)] = (.ret 1 .timeout, tb) ∧
+    New.run Flags.current only 7 tb 0 1 [] = (.ret 1 .timeout, tb) ∧
+    (Legacy.run Flags.current cfg 7 tb 0 1 []).1 = .ret 1 .timeout := by
   decide
 
-/-- **Witness (new), finding C15-F5.**  A time trigger without any future instant next to an event trigger: the new
-subsystem returns `none` at once instead of waiting for the event (legacy and the specification wait). -/
+/-- **Witness (new), open finding C15-F5.**  A time trigger without any future instant next to an event trigger: the
+new subsystem returns `none` at once instead of waiting for the event (legacy and the specification wait). -/
 theorem C15_first_cex_new_none_early :
     let cfg : Cfg := { state := Option.none, time := .abs 0, mqtt := Option.none, timeout := Option.none,
                        event := some { filt := Option.none, parseOK := true } }
     let tb : Tables := { stSubs := [], evSubs := [], evListeners := 0, mqSubs := [], mqListeners := 0, tasks := 0 }
     let hist : Hist := [(1001, .event 4)]
-    first cfg 0 1 hist = .ret 1001 (.event 4) ∧ (Legacy.run cfg 7 tb 0 1 hist).1 = .ret 1001 (.event 4) ∧
-    (New.run cfg 7 tb 0 1 hist).1 = .ret 1 .none := by
+    first cfg 0 1 hist = .ret 1001 (.event 4) ∧
+    (Legacy.run Flags.current cfg 7 tb 0 1 hist).1 = .ret 1001 (.event 4) ∧
+    (New.run Flags.current cfg 7 tb 0 1 hist).1 = .ret 1 .none := by
   decide
 
 /-! ## occurrences before the call or after the return -/
@@ -74,117 +108,132 @@ theorem C15_first_cex_new_none_early :
 /-- **Before the call.**  The whole timeline before the call matters only through the value the watched variable has
 at the call (which the check-now reads): two timelines that agree after the call and on that value give the same
 exit and the same tables – events and state changes before the call are not seen (nothing is subscribed yet). -/
-theorem C15_before (cfg : Cfg) (q : Nat) (tb : Tables) (v v' call : Nat) (full full' : Hist)
+theorem C15_before (fl : Flags) (cfg : Cfg) (q : Nat) (tb : Tables) (v v' call : Nat) (full full' : Hist)
     (hafter : after call full = after call full') (hval : valueAt v call full = valueAt v' call full') :
-    Legacy.runAt cfg q tb v call full = Legacy.runAt cfg q tb v' call full' ∧
-    New.runAt cfg q tb v call full = New.runAt cfg q tb v' call full' := by
+    Legacy.runAt fl cfg q tb v call full = Legacy.runAt fl cfg q tb v' call full' ∧
+    New.runAt fl cfg q tb v call full = New.runAt fl cfg q tb v' call full' := by
   unfold Legacy.runAt New.runAt
   rw [hafter, hval]
   exact ⟨rfl, rfl⟩
 
 /-- **After the return (legacy).**  Whatever happens after the instant of the exit (return, exception or
 cancellation) changes neither the exit nor the tables. -/
-theorem C15_after_legacy (cfg : Cfg) (q : Nat) (tb : Tables) (v0 call : Nat) (hist later : Hist)
-    (hne : (Legacy.run cfg q tb v0 call hist).1 ≠ .waiting)
-    (hl : ∀ p ∈ later, exitTime (Legacy.run cfg q tb v0 call hist).1 < p.1) :
-    Legacy.run cfg q tb v0 call (hist ++ later) = Legacy.run cfg q tb v0 call hist :=
-  legacy_run_after cfg q tb v0 call hist later hne hl
+theorem C15_after_legacy (fl : Flags) (cfg : Cfg) (q : Nat) (tb : Tables) (v0 call : Nat) (hist later : Hist)
+    (hne : (Legacy.run fl cfg q tb v0 call hist).1 ≠ .waiting)
+    (hl : ∀ p ∈ later, exitTime (Legacy.run fl cfg q tb v0 call hist).1 < p.1) :
+    Legacy.run fl cfg q tb v0 call (hist ++ later) = Legacy.run fl cfg q tb v0 call hist :=
+  legacy_run_after fl cfg q tb v0 call hist later hne hl
 
 /-- **After the return (new).** -/
-theorem C15_after_new (cfg : Cfg) (q : Nat) (tb : Tables) (v0 call : Nat) (hist later : Hist)
-    (hne : (New.run cfg q tb v0 call hist).1 ≠ .waiting)
-    (hl : ∀ p ∈ later, exitTime (New.run cfg q tb v0 call hist).1 < p.1) :
-    New.run cfg q tb v0 call (hist ++ later) = New.run cfg q tb v0 call hist :=
-  new_run_after cfg q tb v0 call hist later hne hl
+theorem C15_after_new (fl : Flags) (cfg : Cfg) (q : Nat) (tb : Tables) (v0 call : Nat) (hist later : Hist)
+    (hne : (New.run fl cfg q tb v0 call hist).1 ≠ .waiting)
+    (hl : ∀ p ∈ later, exitTime (New.run fl cfg q tb v0 call hist).1 < p.1) :
+    New.run fl cfg q tb v0 call (hist ++ later) = New.run fl cfg q tb v0 call hist :=
+  new_run_after fl cfg q tb v0 call hist later hne hl
 
 /-! ## clean-up -/
 
-/-- **Clean-up (legacy), the fragment that holds.**  For ALL arguments (also ill-formed ones), tables, values and
-histories: whenever the call ends by returning or by raising – except for a non-parsing MQTT/webhook filter next to an
-event trigger – every table is exactly what it was before the call. -/
-theorem C15_cleanup_legacy_partial (cfg : Cfg) (q : Nat) (tb : Tables) (v0 call : Nat) (hist : Hist)
+/-- **Clean-up (legacy), the fragment that holds (C15-F1 and C15-F4 are open).**  For ALL arguments (also ill-formed
+ones), tables, values and histories: whenever the call ends by returning or by raising – except for a non-parsing
+MQTT/webhook filter next to an event trigger – every table is exactly what it was before the call. -/
+theorem C15_cleanup_legacy_partial (fl : Flags) (cfg : Cfg) (q : Nat) (tb : Tables) (v0 call : Nat) (hist : Hist)
     (hf : Fresh q tb) (hleak : ¬ LeakyParse cfg)
-    (hexit : (Legacy.run cfg q tb v0 call hist).1.leavesRunning = false) :
-    (Legacy.run cfg q tb v0 call hist).2 = tb :=
-  legacy_cleanup cfg q tb v0 call hist hf hleak hexit
+    (hexit : (Legacy.run fl cfg q tb v0 call hist).1.leavesRunning = false) :
+    (Legacy.run fl cfg q tb v0 call hist).2 = tb :=
+  legacy_cleanup fl cfg q tb v0 call hist hf hleak hexit
 
-/-- **Clean-up (new), the fragment that holds.**  Every exit by return or exception (including parse errors, which
-are found before anything is started) leaves every table as it was. -/
-theorem C15_cleanup_new_partial (cfg : Cfg) (q : Nat) (tb : Tables) (v0 call : Nat) (hist : Hist)
-    (hf : q ∉ tb.stSubs) (hexit : (New.run cfg q tb v0 call hist).1.leavesRunning = false) :
-    (New.run cfg q tb v0 call hist).2 = tb :=
-  new_cleanup cfg q tb v0 call hist hf hexit
+/-- **Clean-up (new), every flag value.**  Whenever the manager is not kept (`New.keeps`: still waiting; cancelled
+waiter only in the pre-fix shape), every table is exactly what it was before the call. -/
+theorem C15_cleanup_new_flags (fl : Flags) (cfg : Cfg) (q : Nat) (tb : Tables) (v0 call : Nat) (hist : Hist)
+    (hf : q ∉ tb.stSubs) (hexit : New.keeps fl (New.run fl cfg q tb v0 call hist).1 = false) :
+    (New.run fl cfg q tb v0 call hist).2 = tb :=
+  new_cleanup fl cfg q tb v0 call hist hf hexit
 
-/-- **Witness (legacy), finding C15-F1 (#20).**  The waiter is cancelled while waiting (what `task.unique` does): the
-state subscription, the event subscription and its bus listener stay behind. -/
+/-- **Clean-up (new), FULL statement, the code as it is now.**  For ALL arguments (also ill-formed ones), tables,
+values and histories, on EVERY exit path – return, exception in a condition, parse error, and cancellation of the
+waiting task at every instant – all subscriptions, listeners and background tasks the call created are released. -/
+theorem C15_cleanup_new (cfg : Cfg) (q : Nat) (tb : Tables) (v0 call : Nat) (hist : Hist)
+    (hf : q ∉ tb.stSubs) (hended : (New.run Flags.current cfg q tb v0 call hist).1 ≠ .waiting) :
+    (New.run Flags.current cfg q tb v0 call hist).2 = tb := by
+  apply new_cleanup Flags.current cfg q tb v0 call hist hf
+  cases h : (New.run Flags.current cfg q tb v0 call hist).1 with
+  | waiting => exact absurd h hended
+  | ret t r => rfl
+  | exc t k => rfl
+  | cancelled t => rfl
+
+/-- **Witness (legacy), open finding C15-F1 (#20).**  The waiter is cancelled while waiting (what `task.unique`
+does): the state subscription, the event subscription and its bus listener stay behind. -/
 theorem C15_cex_cancel_leaks_legacy :
     let cfg : Cfg := { state := some { expr := fun v => some (decide (v = 5)), checkNow := true, parseOK := true },
                        time := .none, mqtt := Option.none, timeout := Option.none,
                        event := some { filt := Option.none, parseOK := true } }
     let tb : Tables := { stSubs := [], evSubs := [], evListeners := 0, mqSubs := [], mqListeners := 0, tasks := 0 }
-    Legacy.run cfg 7 tb 0 1 [(1001, .cancel)] =
+    Legacy.run Flags.current cfg 7 tb 0 1 [(1001, .cancel)] =
       (.cancelled 1001, { stSubs := [7], evSubs := [7], evListeners := 1, mqSubs := [], mqListeners := 0, tasks := 0 }) := by
   decide
 
-/-- **Witness (new), finding C15-F2 (#20).**  Same scenario: the state subscription, the decorator's bus listener
-and the background task of the state trigger stay behind. -/
-theorem C15_cex_cancel_leaks_new :
+/-- **Regression witness (new), fixed finding C15-F2 (#20, d8d17a4).**  Same scenario: in the pre-fix shape the state
+subscription, the decorator's bus listener and the background task of the state trigger stay behind; the repaired
+shape leaves the tables as they were. -/
+theorem C15_cleanup_regress_new_cancel :
     let cfg : Cfg := { state := some { expr := fun v => some (decide (v = 5)), checkNow := true, parseOK := true },
                        time := .none, mqtt := Option.none, timeout := Option.none,
                        event := some { filt := Option.none, parseOK := true } }
     let tb : Tables := { stSubs := [], evSubs := [], evListeners := 0, mqSubs := [], mqListeners := 0, tasks := 0 }
-    New.run cfg 7 tb 0 1 [(1001, .cancel)] =
-      (.cancelled 1001, { stSubs := [7], evSubs := [], evListeners := 1, mqSubs := [], mqListeners := 0, tasks := 1 }) := by
+    New.run Flags.preFix cfg 7 tb 0 1 [(1001, .cancel)] =
+      (.cancelled 1001, { stSubs := [7], evSubs := [], evListeners := 1, mqSubs := [], mqListeners := 0, tasks := 1 }) ∧
+    New.run Flags.current cfg 7 tb 0 1 [(1001, .cancel)] = (.cancelled 1001, tb) := by
   decide
 
-/-- **Cancellation at ANY instant keeps every subscription (legacy) – the general form of C15-F1.**  For all
+/-- **Cancellation at ANY instant keeps every subscription (legacy) – the general form of C15-F1 (open).**  For all
 arguments and histories: if the call ends by cancellation (at whatever step of the wait), the tables afterwards are
 the tables with all subscriptions of the call still in place – different from the tables before as soon as any
 state / event / MQTT trigger was given. -/
-theorem C15_cancel_leaks_legacy_all (cfg : Cfg) (q : Nat) (tb : Tables) (v0 call : Nat) (hist : Hist) (t : Nat)
-    (hf : Fresh q tb) (hl : hasListen cfg = true)
-    (hc : (Legacy.run cfg q tb v0 call hist).1 = .cancelled t) :
-    (Legacy.run cfg q tb v0 call hist).2 = Legacy.subscribed cfg q tb ∧
-    (Legacy.run cfg q tb v0 call hist).2 ≠ tb := by
-  have h := legacy_cancel_keeps cfg q tb v0 call hist t hc
+theorem C15_cancel_leaks_legacy_all (fl : Flags) (cfg : Cfg) (q : Nat) (tb : Tables) (v0 call : Nat) (hist : Hist)
+    (t : Nat) (hf : Fresh q tb) (hl : hasListen cfg = true)
+    (hc : (Legacy.run fl cfg q tb v0 call hist).1 = .cancelled t) :
+    (Legacy.run fl cfg q tb v0 call hist).2 = Legacy.subscribed cfg q tb ∧
+    (Legacy.run fl cfg q tb v0 call hist).2 ≠ tb := by
+  have h := legacy_cancel_keeps fl cfg q tb v0 call hist t hc
   exact ⟨h, by rw [h]; exact legacy_subscribed_ne cfg q tb hf hl⟩
 
-/-- **Cancellation at ANY instant stops nothing (new) – the general form of C15-F2.**  If the call ends by
-cancellation, everything the successful `start` took (`New.applied`: state subscription, listeners, background
-tasks of every started decorator) is still there. -/
-theorem C15_cancel_leaks_new_all (cfg : Cfg) (q : Nat) (tb : Tables) (v0 call : Nat) (hist : Hist) (t : Nat)
-    (hf : q ∉ tb.stSubs) (hc : (New.run cfg q tb v0 call hist).1 = .cancelled t) :
-    ∃ s, (New.run cfg q tb v0 call hist).2 = New.applied q s tb ∧
-      New.start cfg q tb v0 call = .ok (s, New.applied q s tb) :=
-  new_cancel_keeps cfg q tb v0 call hist t hf hc
+/-- **Regression (new), the general form of the fixed C15-F2.**  In every shape that does not stop on cancellation
+(`cancelNoStop`), a call that ends by cancellation leaves everything the successful `start` took in place. -/
+theorem C15_cleanup_regress_new_cancel_all (fl : Flags) (hflag : fl.cancelNoStop = true) (cfg : Cfg) (q : Nat)
+    (tb : Tables) (v0 call : Nat) (hist : Hist) (t : Nat)
+    (hf : q ∉ tb.stSubs) (hc : (New.run fl cfg q tb v0 call hist).1 = .cancelled t) :
+    ∃ s, (New.run fl cfg q tb v0 call hist).2 = New.applied q s tb ∧
+      New.start fl cfg q tb v0 call = .ok (s, New.applied q s tb) :=
+  new_cancel_keeps fl cfg q tb v0 call hist t hflag hf hc
 
-/-- **Witness (legacy), finding C15-F4.**  `event_trigger="e"` together with an MQTT trigger whose filter does not
+/-- **Witness (legacy), open finding C15-F4.**  `event_trigger="e"` together with an MQTT trigger whose filter does not
 parse: the `SyntaxError` leaves the event subscription and its bus listener behind (only the state subscription is
 removed on that path); the new subsystem validates first and leaves nothing. -/
 theorem C15_cex_parse_leaks_legacy :
     let cfg : Cfg := { state := Option.none, time := .none, mqtt := some { parseOK := false }, timeout := Option.none,
                        event := some { filt := Option.none, parseOK := true } }
     let tb : Tables := { stSubs := [], evSubs := [], evListeners := 0, mqSubs := [], mqListeners := 0, tasks := 0 }
-    Legacy.run cfg 7 tb 0 1 [] =
+    Legacy.run Flags.current cfg 7 tb 0 1 [] =
       (.exc 1 .parse, { stSubs := [], evSubs := [7], evListeners := 1, mqSubs := [], mqListeners := 0, tasks := 0 }) ∧
-    New.run cfg 7 tb 0 1 [] = (.exc 1 .parse, tb) := by
+    New.run Flags.current cfg 7 tb 0 1 [] = (.exc 1 .parse, tb) := by
   decide
 
 /-! ## non-vacuity -/
 
 /-- the hypotheses of the first-of theorems are satisfiable by a scenario in which every kind of condition is
-present: state trigger (check-now false, later true), absolute time trigger, event trigger with filter, timeout;
+present: state trigger (check-now false, later true), now-relative time trigger, event trigger with filter, timeout;
 the state change at 2.5 s wins -/
 example :
     let cfg : Cfg := { state := some { expr := fun v => some (decide (v > 3)), checkNow := true, parseOK := true },
-                       time := .abs 9000, mqtt := some { parseOK := true }, timeout := some 8000,
+                       time := .rel 9000, mqtt := some { parseOK := true }, timeout := some 8000,
                        event := some { filt := some (fun d => some (decide (d = 1))), parseOK := true } }
     let tb : Tables := { stSubs := [3], evSubs := [], evListeners := 0, mqSubs := [4], mqListeners := 1, tasks := 2 }
     let hist : Hist := [(501, .event 0), (1501, .state 2), (2501, .state 7), (3001, .event 1)]
-    WellFormed cfg ∧ NotRel cfg.time ∧ Fresh 7 tb ∧
-    Legacy.run cfg 7 tb 0 1 hist = (.ret 2501 (.state (some 7)), tb) ∧
-    New.run cfg 7 tb 0 1 hist = (.ret 2501 (.state (some 7)), tb) ∧
+    WellFormed cfg ∧ PosRel cfg.time ∧ Fresh 7 tb ∧
+    Legacy.run Flags.current cfg 7 tb 0 1 hist = (.ret 2501 (.state (some 7)), tb) ∧
+    New.run Flags.current cfg 7 tb 0 1 hist = (.ret 2501 (.state (some 7)), tb) ∧
     first cfg 0 1 hist = .ret 2501 (.state (some 7)) := by
-  refine ⟨by simp [WellFormed, New.parseAll], by simp [NotRel], by simp [Fresh], by decide, by decide, by decide⟩
+  refine ⟨by simp [WellFormed, New.parseAll], by simp [PosRel], by simp [Fresh], by decide, by decide, by decide⟩
 
 end PsModel.C15
